@@ -751,6 +751,66 @@ theorem precondition_invariant (env : Env ℝ) (dim size : Nat) (hdim : dim = 2 
   · simp only [hi, if_true]; field_simp
   · simp only [hi, if_false, one_mul]
 
+/-! ## No motion is too small: the exact clauses hold at every magnitude and every scale
+
+The statements above carry no hypothesis on the SIZE of the motion, of the cloud or of the preconditioning scale.  The three
+corollaries below spell out what that means for an implementation that stops early on an absolute threshold (a right-hand
+side "small enough", a displacement "already aligned"): a pure translation `T`, however small in relation to the cloud, to
+the scale or to any fixed constant, comes back in the translation column entry by entry — through the plain overload and,
+for every non-zero scale, through the preconditioned one — so the identity is the answer only for `T = 0`. -/
+
+/-- the translation column of the scattered solution holds the first `dim` parameters -/
+theorem scatter_translation_column (dim : Nat) (hdim : dim = 2 ∨ dim = 3) (x : Vec ℝ) (c : Nat) (hc : c < dim) :
+    Mat.get (scatter dim x) c dim = Vec.get x c := by
+  rcases hdim with rfl | rfl
+  · interval_cases c <;> rfl
+  · interval_cases c <;> rfl
+
+/-- **A pure translation of any size is returned entry by entry** (plain overload, any reachable estimator with the
+    identity configuration): `M(c, dim) = T c`, so the result is the identity only if `T = 0`. -/
+theorem translation_column_recovered (env : Env ℝ) (dim size : Nat) (hdim : dim = 2 ∨ dim = 3) (e : Estimator ℝ) (he : EWF dim e)
+    (hA : toM (estSize dim) (estSize dim) e.ls.Ac = 1) (hB : toV (estSize dim) e.ls.Bc = 0)
+    (src tgt nrm : Array (Pt ℝ)) (T : Nat → ℝ)
+    (hsz : size = dim ∨ (size = dim + 1 ∧ ∀ k < src.size, Vec.get (tgt.getD k #[]) dim = Vec.get (src.getD k #[]) dim))
+    (ht : ∀ k < src.size, ∀ c < dim, Vec.get (tgt.getD k #[]) c = Vec.get (src.getD k #[]) c + T c)
+    (jJ : Nat → Nat → ℝ) (jY : Nat → ℝ)
+    (hsvd : SVDAt env (stateAligned dim size e src tgt nrm jJ jY)) (heps : 0 ≤ env.eps)
+    (hcut : NoCut env (stateAligned dim size e src tgt nrm jJ jY)) :
+    (∀ c < dim, Mat.get (findAligned env dim size e src tgt nrm jJ jY).2 c dim = T c) ∧
+    ((findAligned env dim size e src tgt nrm jJ jY).2 = scatter dim (vecOf (e := estSize dim) fun _ => 0) →
+      ∀ c < dim, T c = 0) := by
+  have hmain := pure_translation_exact env dim size hdim e he hA hB src tgt nrm T hsz ht jJ jY hsvd heps hcut
+  have hlt : ∀ c < dim, c < estSize dim := by
+    intro c hc; rcases hdim with rfl | rfl <;> simp [estSize] <;> omega
+  have hcol : ∀ c < dim, Mat.get (findAligned env dim size e src tgt nrm jJ jY).2 c dim = T c := by
+    intro c hc
+    rw [hmain, scatter_translation_column dim hdim _ c hc, vecOf_get _ ⟨c, hlt c hc⟩]
+    simp [hc]
+  refine ⟨hcol, fun hid c hc => ?_⟩
+  have h1 := hcol c hc
+  rw [hid, scatter_translation_column dim hdim _ c hc, vecOf_get _ ⟨c, hlt c hc⟩] at h1
+  exact h1.symm
+
+/-- **… and through the preconditioned overload at every non-zero scale**: configure the estimator with the scaled sets,
+    hand the scaled sets over — the result is `[[I, T], [0, 1]]` with the translation `T` in the ORIGINAL units, exactly. -/
+theorem pure_translation_exact_preconditioned (env : Env ℝ) (dim size : Nat) (hdim : dim = 2 ∨ dim = 3) (e : Estimator ℝ)
+    (he : EWF dim e) (hA : toM (estSize dim) (estSize dim) e.ls.Ac = 1) (hB : toV (estSize dim) e.ls.Bc = 0)
+    (src tgt nrm : Array (Pt ℝ)) (T : Nat → ℝ) (sc : ℝ) (hsc : sc ≠ 0)
+    (hsz : size = dim ∨ (size = dim + 1 ∧ ∀ k < src.size, Vec.get (tgt.getD k #[]) dim = Vec.get (src.getD k #[]) dim))
+    (ht : ∀ k < src.size, ∀ c < dim, Vec.get (tgt.getD k #[]) c = Vec.get (src.getD k #[]) c + T c)
+    (jJ jJ' : Nat → Nat → ℝ) (jY jY' : Nat → ℝ)
+    (hsvd : SVDAt env (stateAligned dim size e src tgt nrm jJ jY)) (heps : 0 ≤ env.eps)
+    (hcut : NoCut env (stateAligned dim size e src tgt nrm jJ jY))
+    (hsvd' : SVDAt env (stateAligned dim size (PointToPlane.setPreconditioner dim e (precondition tgt sc))
+      (precondition src sc).points (precondition tgt sc).points nrm jJ' jY'))
+    (hcut' : NoCut env (stateAligned dim size (PointToPlane.setPreconditioner dim e (precondition tgt sc))
+      (precondition src sc).points (precondition tgt sc).points nrm jJ' jY')) :
+    (findAlignedPre env dim size (PointToPlane.setPreconditioner dim e (precondition tgt sc))
+        (precondition src sc) (precondition tgt sc) nrm jJ' jY').2 =
+      scatter dim (vecOf (e := estSize dim) fun i => if i.val < dim then T i.val else 0) := by
+  rw [precondition_invariant env dim size hdim e he hA hB src tgt nrm sc hsc jJ jJ' jY jY' hsvd heps hcut hsvd' hcut']
+  exact pure_translation_exact env dim size hdim e he hA hB src tgt nrm T hsz ht jJ jY hsvd heps hcut
+
 /-! ## Non-vacuity: a concrete 2D problem meets the hypotheses of the theorems above -/
 
 /-- four correspondences whose rows are `[1,0,0], [0,1,0], [0,1,1], [0,-1,1]` (normal matrix `diag(1,3,2)`);
@@ -769,7 +829,7 @@ theorem exS_J : JM exS = (!![1, 0, 0 * 0 - 0 * 1; 0, 1, 0 * 1 - 0 * 0; 0, 1, 1 *
   funext i j
   fin_cases i <;> fin_cases j <;> rfl
 
-example : EWF 2 (init 2 : Estimator ℝ) ∧
+private theorem ex_translation_hyps : EWF 2 (init 2 : Estimator ℝ) ∧
     toM (estSize 2) (estSize 2) (init 2 : Estimator ℝ).ls.Ac = 1 ∧ toV (estSize 2) (init 2 : Estimator ℝ).ls.Bc = 0 ∧
     SVDAt exEnv5 exS ∧ NoCut exEnv5 exS ∧ 0 ≤ exEnv5.eps ∧
     (∀ k < exSrc.size, ∀ c < 2, Vec.get (exTgt.getD k #[]) c = Vec.get (exSrc.getD k #[]) c + (if c = 0 then 1 / 2 else 1 / 4)) := by
@@ -806,6 +866,77 @@ example : EWF 2 (init 2 : Estimator ℝ) ∧
   · intro k hk c hc
     have hk' : k < 4 := hk
     interval_cases k <;> interval_cases c <;> norm_num [exSrc, exTgt, Vec.get]
+
+/-- the hypotheses of `pure_translation_exact` / `translation_column_recovered` are met by this problem … -/
+example : EWF 2 (init 2 : Estimator ℝ) ∧ SVDAt exEnv5 exS ∧ NoCut exEnv5 exS :=
+  ⟨ex_translation_hyps.1, ex_translation_hyps.2.2.2.1, ex_translation_hyps.2.2.2.2.1⟩
+
+/-- … and `translation_column_recovered` then reads the translation `(1/2, 1/4)` off the returned matrix -/
+example : Mat.get (findAligned exEnv5 2 2 (init 2) exSrc exTgt exNrm (fun _ _ => 7) (fun _ => 7)).2 0 2 = 1 / 2 ∧
+    Mat.get (findAligned exEnv5 2 2 (init 2) exSrc exTgt exNrm (fun _ _ => 7) (fun _ => 7)).2 1 2 = 1 / 4 := by
+  obtain ⟨h1, h2, h3, h4, h5, h6, h7⟩ := ex_translation_hyps
+  have h := (translation_column_recovered exEnv5 2 2 (Or.inl rfl) (init 2) h1 h2 h3 exSrc exTgt exNrm
+    (fun c => if c = 0 then 1 / 2 else 1 / 4) (Or.inl rfl) h7 (fun _ _ => 7) (fun _ => 7) h4 h6 h5).1
+  exact ⟨by simpa using h 0 (by norm_num), by simpa using h 1 (by norm_num)⟩
+
+/-- the same problem handed over through a preconditioner of scale 2: the rotation column doubles, the normal matrix
+    becomes `diag(1,3,8)`; an SVD routine that answers that correctly -/
+noncomputable def exEnv5p : Env ℝ :=
+  { eps := 1 / 10, svd := fun _ _ => ⟨identity 3, #[1, 3, 8], identity 3⟩, ldltInv := fun _ A => A }
+noncomputable def exSrcP : Array (Pt ℝ) := #[#[0 * 2, 0 * 2], #[0 * 2, 0 * 2], #[1 * 2, 0 * 2], #[-1 * 2, 0 * 2]]
+noncomputable def exTgtP : Array (Pt ℝ) := #[#[1/2 * 2, 1/4 * 2], #[1/2 * 2, 1/4 * 2], #[3/2 * 2, 1/4 * 2], #[-1/2 * 2, 1/4 * 2]]
+private theorem exSrcP_eq : (precondition exSrc 2).points = exSrcP := by simp [precondition, exSrc, exSrcP]
+private theorem exTgtP_eq : (precondition exTgt 2).points = exTgtP := by simp [precondition, exTgt, exTgtP]
+noncomputable def exSp : State ℝ :=
+  stateAligned 2 2 (PointToPlane.setPreconditioner 2 (init 2) (precondition exTgt 2)) exSrcP exTgtP exNrm (fun _ _ => 7) (fun _ => 7)
+
+private theorem exSp_J : JM exSp = (!![1, 0, 0 * 2 * 0 - 0 * 2 * 1; 0, 1, 0 * 2 * 1 - 0 * 2 * 0; 0, 1, 1 * 2 * 1 - 0 * 2 * 0;
+    0, -1, -1 * 2 * -1 - 0 * 2 * 0] : Matrix (Fin 4) (Fin 3) ℝ) := by
+  funext i j
+  fin_cases i <;> fin_cases j <;> rfl
+
+/-- the additional hypotheses of `precondition_invariant` / `pure_translation_exact_preconditioned` (scale 2 ≠ 0, SVD contract
+    and no cut on the scaled problem) are met -/
+example : (2 : ℝ) ≠ 0 ∧
+    SVDAt exEnv5p (stateAligned 2 2 (PointToPlane.setPreconditioner 2 (init 2) (precondition exTgt 2))
+      (precondition exSrc 2).points (precondition exTgt 2).points exNrm (fun _ _ => 7) (fun _ => 7)) ∧
+    NoCut exEnv5p (stateAligned 2 2 (PointToPlane.setPreconditioner 2 (init 2) (precondition exTgt 2))
+      (precondition exSrc 2).points (precondition exTgt 2).points exNrm (fun _ _ => 7) (fun _ => 7)) := by
+  rw [exSrcP_eq, exTgtP_eq]
+  show (2 : ℝ) ≠ 0 ∧ SVDAt exEnv5p exSp ∧ NoCut exEnv5p exSp
+  refine ⟨by norm_num, ⟨?_, ?_, ?_, ?_⟩, ?_⟩
+  · show (toM 3 3 (identity 3))ᵀ * toM 3 3 (identity 3) = 1
+    rw [toM_identity]; simp
+  · show (toM 3 3 (identity 3))ᵀ * toM 3 3 (identity 3) = 1
+    rw [toM_identity]; simp
+  · intro i
+    have h3 : ∀ j < 3, (0 : ℝ) ≤ Vec.get #[1, 3, 8] j := by
+      intro j hj; interval_cases j <;> norm_num [Vec.get]
+    exact h3 _ (show i.val < 3 from i.isLt)
+  · have h := toM_computeJtJ exSp
+    rw [exSp_J] at h
+    have hS : toV 3 #[(1 : ℝ), 3, 8] = ![1, 3, 8] := by funext i; fin_cases i <;> rfl
+    have key : ((!![1, 0, 0 * 2 * 0 - 0 * 2 * 1; 0, 1, 0 * 2 * 1 - 0 * 2 * 0; 0, 1, 1 * 2 * 1 - 0 * 2 * 0;
+          0, -1, -1 * 2 * -1 - 0 * 2 * 0] : Matrix (Fin 4) (Fin 3) ℝ)ᵀ *
+          (!![1, 0, 0 * 2 * 0 - 0 * 2 * 1; 0, 1, 0 * 2 * 1 - 0 * 2 * 0; 0, 1, 1 * 2 * 1 - 0 * 2 * 0;
+          0, -1, -1 * 2 * -1 - 0 * 2 * 0] : Matrix (Fin 4) (Fin 3) ℝ)) =
+        1 * Matrix.diagonal ![1, 3, 8] * (1 : Matrix (Fin 3) (Fin 3) ℝ)ᵀ := by
+      rw [Matrix.one_mul, Matrix.transpose_one, Matrix.mul_one]
+      ext i j
+      fin_cases i <;> fin_cases j <;> norm_num [Matrix.mul_apply, Fin.sum_univ_succ, Matrix.diagonal_apply]
+    show toM 3 3 (computeJtJ exSp) = toM 3 3 (identity 3) * Matrix.diagonal (toV 3 #[1, 3, 8]) * (toM 3 3 (identity 3))ᵀ
+    have h2 : toM 3 3 (computeJtJ exSp) = (!![1, 0, 0 * 2 * 0 - 0 * 2 * 1; 0, 1, 0 * 2 * 1 - 0 * 2 * 0; 0, 1, 1 * 2 * 1 - 0 * 2 * 0;
+          0, -1, -1 * 2 * -1 - 0 * 2 * 0] : Matrix (Fin 4) (Fin 3) ℝ)ᵀ * (!![1, 0, 0 * 2 * 0 - 0 * 2 * 1; 0, 1, 0 * 2 * 1 - 0 * 2 * 0; 0, 1, 1 * 2 * 1 - 0 * 2 * 0;
+          0, -1, -1 * 2 * -1 - 0 * 2 * 0] : Matrix (Fin 4) (Fin 3) ℝ) := h
+    rw [h2, toM_identity, hS, key]
+  · intro i
+    have h3 : ∀ j < 3, (1 / 10 : ℝ) < Vec.get #[1, 3, 8] j := by
+      intro j hj; interval_cases j <;> norm_num [Vec.get]
+    exact h3 _ (show i.val < 3 from i.isLt)
+
+/-- `scatter_translation_column` on a 3D parameter vector with a tiny translation -/
+example : Mat.get (scatter 3 (#[1 / 1000000000, 0, -1 / 1000000000, 0, 0, 0] : Vec ℝ)) 2 3 = -1 / 1000000000 := by
+  rw [scatter_translation_column 3 (Or.inr rfl) _ 2 (by norm_num)]; rfl
 
 /-- the trigonometric bound at a non-trivial angle -/
 example : |(1 / 10 : ℝ) - Real.sin (1 / 10)| ≤ |(1 / 10 : ℝ)| ^ 3 / 6 := (trig_bounds (1 / 10)).2.2
